@@ -337,13 +337,26 @@ theorem sqr_complete (hash : A → A → Int) (x r1 : Int) (g h : A) (r2 : Int) 
     sqrCheck (𝔾) hash (sqrCreate (𝔾) hash x r1 g h r2 rnd) g h ((x * x) • g + r1 • h) = true :=
   sqr_complete' hash x r1 g h _ r2 rnd rfl
 
-/-- range_complete: for a value inside [a, b] the honest construction (any randomness with w ≥ 3 and a split
-    m1, m2 ≥ 0 of mst) produces an attestation whose answers to every challenge s, t ≥ 1 pass the check -/
-theorem range_complete (hash : A → A → Int) (g h : A) (value a b : Int) (rnd : RangeRand) (s t : Int)
-    (h1 : a ≤ value) (h2 : value ≤ b) (hw : 3 ≤ rnd.w)
+/- FULL STATEMENT ("a range proof for a value inside the range is accepted", for every format): NOT true of the code —
+   for a format with max ≤ 0 no attestation can be created (`inside_not_attestable_for_max_nonpos`, known finding
+   `EL.create:max-not-positive`).  Proved part: every format with max ≥ 1 — for a value inside [a, b] the honest
+   construction (any randomness with w ≥ 3 and a split m1, m2 ≥ 0 of mst) produces an attestation whose answers to
+   every challenge s, t ≥ 1 pass the check. -/
+theorem range_complete_partial (hash : A → A → Int) (g h : A) (value a b : Int) (rnd : RangeRand) (s t : Int)
+    (h1 : a ≤ value) (h2 : value ≤ b) (hb : 1 ≤ b) (hw : 3 ≤ rnd.w)
     (hm1 : 0 ≤ rnd.m1) (hm2 : 0 ≤ mstOf rnd.w value a b - rnd.m1 - rnd.m4 * rnd.m4) (hs : 1 ≤ s) (ht : 1 ≤ t) :
     rangeRound (𝔾) hash g h value a b rnd s t = some true :=
-  range_complete' hash g h value a b rnd s t h1 h2 hw hm1 hm2 hs ht
+  range_complete' hash g h value a b rnd s t h1 h2 hb hw hm1 hm2 hs ht
+
+/-- NEGATION of the full statement: for a format with max ≤ 0 the construction yields nothing, also for values inside
+    the range (`EL.create` computes its randomness range with `^`, which is XOR: negative for b ≤ 0) -/
+theorem inside_not_attestable_for_max_nonpos (hash : A → A → Int) (g h : A) (value a b : Int) (rnd : RangeRand)
+    (hb : b ≤ 0) : createAttestPair (𝔾) hash g h value a b rnd = none := by
+  unfold createAttestPair
+  simp only [hb, if_true]
+  split
+  · rfl
+  · split <;> rfl
 
 /-- outside_rejected: for a value outside the range the honest construction yields no attestation at all
     (the code raises or does not terminate), whatever the randomness -/
@@ -490,7 +503,8 @@ example : certaintyQ ⟨5, 6, 5, 0⟩ ⟨4, 7, 5, 0⟩ = 0 := other_profile_scor
 /-- the range theorems' hypotheses are satisfiable: value 20 in [18, 30], w = 5 -/
 example : rangeRound (GroupOps.ofAdd (ZMod 15)) (fun _ _ => 7) 1 5 20 18 30
     ⟨2, 3, 4, 5, 6, 100, 11, 12, ⟨1, 2, 3⟩, 4, ⟨5, 6, 7⟩, 8, ⟨9, 10, 11⟩⟩ 40000 50000 = some true :=
-  range_complete _ _ _ _ _ _ _ _ _ (by decide) (by decide) (by decide) (by decide) (by decide) (by decide) (by decide)
+  range_complete_partial _ _ _ _ _ _ _ _ _ (by decide) (by decide) (by decide) (by decide) (by decide) (by decide)
+    (by decide) (by decide)
 
 
 /-- concrete witness of the known finding: value 5 outside [18, 20], g = 1 of order 15 in ℤ/15, m2 shifted by 40·15 -/
@@ -522,13 +536,19 @@ theorem attestation_stored_with_its_own_key (reqs : List (Nat × Nat)) (att : Na
     ∀ p ∈ (runChunks reqs evs).stored, ∃ gt, (gt, p.2) ∈ reqs ∧ p.1 = att gt :=
   (reqInv_run reqs att evs hon).bound
 
-/-- the smallest challenge the verifier of the range format can draw is answered honestly by the prover: the two
-    thresholds (`_safe_rndint` and `create_challenge_response`) agree on the boundary -/
+/-- every challenge the verifier of the range format can draw is answered honestly by the prover.  Both tests
+    (`verifierRedraws` from `_safe_rndint`, `proverRefuses` from `create_challenge_response`) are GENERATED from
+    algorithm.py on every run, so the theorem is re-proved against the two code sites as they are now -/
 theorem challenge_threshold_consistent (large s t : Int) (hs : verifierAccepts large s = true)
     (ht : verifierAccepts large t = true) : proverAnswersHonestly large s t = true := by
-  simp only [verifierAccepts, proverAnswersHonestly, Bool.not_eq_true', decide_eq_false_iff_not,
-    Bool.or_eq_false_iff] at *
-  exact ⟨hs, ht⟩
+  simp only [verifierAccepts, proverAnswersHonestly, verifierRedraws, proverRefuses, Bool.not_eq_true',
+    decide_eq_false_iff_not, Bool.or_eq_false_iff, Bool.and_eq_false_iff, Bool.or_eq_true, Bool.and_eq_true,
+    decide_eq_true_eq] at *
+  omega
+
+/-- … and the generator does accept its own threshold (the hypotheses are satisfiable at the boundary) -/
+example : verifierAccepts largeInteger largeInteger = true ∧ proverAnswersHonestly largeInteger largeInteger largeInteger = true := by
+  decide
 
 /-- two requests answered in reverse order with interleaved chunks: each attestation gets its own key -/
 example : (runChunks [(1, 100), (2, 200)] [(2, 8, 0, 2), (1, 7, 1, 2), (2, 8, 0, 2), (1, 7, 0, 2), (2, 8, 1, 2)]).stored
